@@ -48,8 +48,9 @@ def main(argv):
         if len(seen) > 5: break
         v.violation('implementation-level oracle (AstVm source vs compiled): ' + what[:300],
                     {'class': 'c02-oracle:' + key, 'source_text': body, 'cfgbits': bits, 'detail': what})
-    v.obligation('oracle: AstVm(source) = AstVm(raise(lower(source))) on every generated body x 4 valuations', not oracle_fail,
-                 '%d failures' % len(oracle_fail) if oracle_fail else '')
+    unknown_fail = [f for f in oracle_fail if not v.is_known('c02-oracle:' + f[0].split(':')[0])]
+    v.obligation('oracle: AstVm(source) = AstVm(raise(lower(source))) on every generated body x 4 valuations', not unknown_fail,
+                 '%d failures' % len(unknown_fail) if unknown_fail else '(%d runs fall under recorded known findings)' % len(oracle_fail))
     if v.corr_ok and cases:
         mism, errs = coq_eval_cases(PROP, IMPORTS, 'c02case', cases, shard=(60 if tier == 'quick' else 300))
         v.obligation('correspondence: model lowering = implementation lowering (emitted instruction lists) on %d bodies' % len(cases),
@@ -58,7 +59,7 @@ def main(argv):
             bits, body = src_of(texts[i])
             v.violation('model/implementation disagreement on the lowered instruction list',
                         {'class': 'c02-corr', 'case': cases[i], 'source_text': body, 'cfgbits': bits, 'broken': 'correspondence Corr.C02.model_of'},
-                        no_failing_input=not oracle_fail)
+                        no_failing_input=not unknown_fail)
     if (not proofs_ok or not v.corr_ok) and not v.violations:
         v.violation('proof obligation does not check: %s' % json.dumps(v.coq_error)[:400], {'class': 'c02-proof', 'broken': v.coq_error}, no_failing_input=True)
     elif any(not o[1] for o in v.obligations) and not v.violations:
